@@ -31,7 +31,10 @@ pub fn open_pack(path: impl AsRef<Path>) -> jbk::Result<ContainerPack> {
     let pack_header = reader.parse_block_at::<jbk::common::PackHeader>(Offset::zero())?;
     Ok(match pack_header.magic {
         jbk::common::PackKind::Container => ContainerPack::new(reader)?,
-        _ => ContainerPack::new_fake(reader, pack_header.uuid),
+        _ => {
+            jbk::reader::check_pack_tail(&reader, Offset::zero(), &pack_header)?;
+            ContainerPack::new_fake(reader, pack_header.uuid)
+        }
     })
 }
 
